@@ -20,3 +20,4 @@ for f in sorted(glob.glob('/verif/evidence/*.json')):
     except Exception as ex:
         print(f, 'INVALID', str(ex)[:200])
 PY
+python3 /verif/tools/design_table.py >/dev/null 2>&1 || true
